@@ -13,19 +13,19 @@ COMMON = ' Built from the working tree through a build overlay (no source hooks)
 claimed = {
  'C01': dict(level='exploration', engine=E1, ref='§4 C01',
    technique='bounded-exhaustive enumeration of datasets x expression trees x writers x open modes against a bit-vector reference model',
-   text='Every member of three stated finite spaces (all row sequences up to 3/4 rows over 9 row shapes x all expression trees to depth 1/2; a boundary family with interval-shaped bitmaps around 1000/4096/65536 rows and >1000 distinct values; a truth-table dataset x all trees to depth 2/3) is executed on the real index for all three writer paths and both open modes and compared with a naive model. Exhaustive within the stated bounds; larger datasets and deeper trees are not covered.',
+   text='Every member of the stated finite spaces (all row sequences up to 3/4 rows over 9 row shapes - and over 9 shapes of prefix-related column names whose name+value concatenations coincide - x all expression trees to depth 1/2; a boundary family with interval-shaped bitmaps around 1000/4096/65536 rows and >1000 distinct values; a truth-table dataset x all trees to depth 2/3) is executed on the real index for all three writer paths and both open modes and compared with a naive model; every value of the 1500- and N-valued columns is queried in both open modes; expression objects are also executed, edited in place and executed again. A wrong count is minimised to the earlier query it depends on. Exhaustive within the stated bounds; larger datasets and deeper trees are not covered.',
    note='Trusts the bit-vector reference model and bbolt/roaring as libraries; 64-bit hash collisions assumed away; the NUL-byte column input is reported as a known finding.'),
  'C02': dict(level='exploration', engine=E1, ref='§4 C02',
    technique='bounded-exhaustive enumeration of datasets x expressions x all group-by lists (length 0..6) against a brute-force GROUP BY model',
-   text='All group-by lists of length 0..4 over {a,b,c,unknown} and 5..6 over {a,b} on every dataset of up to 2 (quick) / 3 (thorough) rows over 36 row shapes plus a dedicated 10-row family, 4-6 expressions, all writer/open configurations: the complete group list (tuples, counts, order, column names) must equal the model.',
+   text='All group-by lists of length 0..4 over {a,b,c,unknown} and 5..6 over {a,b} on every dataset of up to 2 (quick) / 3 (thorough) rows over 36 row shapes plus dedicated families (17 rows with values whose byte order differs from numeric/locale order or that continue a common prefix with NUL; 1100 rows with a 1100-valued group-by column), 4-6 expressions, all writer/open configurations: the complete group list (tuples, counts, order, column names) must equal the model.',
    note='Trusts the brute-force model; datasets beyond the small scope are not covered.'),
  'C03': dict(level='model_checking', engine=E2, ref='§4 C03',
    technique='explicit-state BFS over query histories of a real cached index (state = cached (key, content checksum) list + preloaded checksum) plus exhaustive ordered query pairs on a fresh cache',
-   text='For each of 10 configurations {on-demand, preloaded} x {no cache, LRU 0, ~1 entry, ~3 entries, ample} all reachable cache states for a 17-query alphabet are visited (fixpoint) and every transition compared with the uncached answer on a dataset where the count identifies the boolean function; all ordered pairs of a tree space (7 056 quick / 3.6 M thorough) are run on a fresh ample cache.',
+   text='For each of 10 configurations {on-demand, preloaded} x {no cache, LRU 0, ~1 entry, ~3 entries, ample} all reachable cache states for a 17-query alphabet are visited (fixpoint) and every transition compared with the uncached answer on a dataset where the count identifies the boolean function; all ordered pairs of a tree space (7 056 quick / 3.6 M thorough) are run on a fresh ample cache; a 2500-value index is compared value by value on demand vs preloaded vs preloaded+cached; leaves with coinciding name+value concatenations are run pairwise on a cached index; expression objects are executed, edited in place and executed again.',
    note='State merging assumes the future depends only on cached (key, content) in recency order and preloaded contents; up to 64-bit key collisions.'),
  'C04': dict(level='model_checking', engine=E3, ref='§4 C04',
    technique='stateless schedule enumeration (preemption-bounded DFS) of real goroutines under a controlled cooperative scheduler with the Go race detector live in every schedule; linearizability check of LRU histories',
-   text='All schedules with at most k preemptions (k=2..3 quick, 3..5 thorough) of 2-3 real goroutines calling Execute/GetSchema on one open index (3 cache kinds x 2 open modes) or Get/Put on one LRUCache, with scheduling points at every sync/atomic operation of updog; per schedule: no race report, panic or deadlock, every result equals the sequential one, LRU structure consistent, direct cache histories linearizable.',
+   text='All schedules with at most k preemptions (k=2..3 quick, 3..5 thorough) of 2-3 real goroutines calling Execute/GetSchema on one open index (3 cache kinds x 2 open modes; also on a cold index opened per execution) or Get/Put on one LRUCache, with scheduling points at every sync/atomic operation of updog and at the locks inside bbolt; per schedule: no race report, panic or deadlock, every result equals the sequential one, LRU structure consistent, direct cache histories linearizable. Supplementary (free-running, stated as not exhaustive): the real server built with -race under batches and concurrent clients.',
    note='Scheduling points only at sync/atomic operations of updog packages (rewritten at build time); races in between are caught by the race detector, which sees only the program\'s own happens-before edges. gRPC-level concurrency is not enumerated.'),
  'C05': dict(level='exploration', engine=E1 + ' + ' + E2, ref='§4 C05',
    technique='bounded-exhaustive enumeration of AddRow sequences x 3 writer paths x 2 open modes against the model (ids, schema, universe, exact membership via a unique column) plus BFS over open/close/probe histories',
@@ -41,7 +41,7 @@ claimed = {
    note='State merging on the non-Expr fields of the Query values, cross-checked by the unmerged enumeration.'),
  'C17': dict(level='model_checking', engine=E2 + ' + ' + E3, ref='§4 C17',
    technique='explicit-state BFS over open/query/close histories through real database/sql (state = pool stats + driver cache dump) and preemption-bounded schedule enumeration of concurrent first use at the driver.Driver seam with file-lock waits as scheduling points',
-   text='Sequential: all histories to depth 6/8 over 2 files x 2 option strings, <=3 live handles, pool sizes {unlimited,1}; a file-lock wait in a single-threaded history is a hang. Concurrent: 2-3 threads Open/Query/Close on one file under the controlled scheduler with the race detector; deadlock = a thread waiting for a lock nobody will release.',
+   text='Sequential: all histories to depth 6/8 over 2 files x 2 option strings, <=3 live handles, pool sizes {unlimited,1}, states merged on a generic dump of the complete private state of the driver; any lock (file lock, updog mutex, bbolt lock) that cannot be taken in a single-threaded history is a hang. Concurrent: 2-3 threads Open/Query/Close on one file (same query, different bound arguments, with a shared LRU cache) under the controlled scheduler with the race detector; deadlock = a thread waiting for a lock nobody will release.',
    note='GC disabled during replays (a finalizer could release a leaked lock); one residual class (same file under different option strings) is a recorded known finding.'),
  'C18': dict(level='model_checking', engine=E3, ref='§4 C18',
    technique='stateless enumeration of ALL interleavings (unbounded preemptions) of k goroutines x r AddRow calls on the real writers under the controlled scheduler with the Go race detector live; flushed index compared with the sequential model',
